@@ -206,7 +206,7 @@ func (s *state) walk(node ast.Node) {
 
 	// Arithmetic operators ----------
 	case *ast.NegateNode:
-		s.js("(-", node.Arg, ")")
+		s.js("(- ", node.Arg, ")") // the space keeps -(-1) from becoming the decrement operator
 	case *ast.AddNode:
 		s.op("+", node)
 	case *ast.SubNode:
